@@ -50,7 +50,16 @@ UnwindOK(r) ==
         \o r.status \o " (a drop during unwinding must follow the loop discipline too)",
       r.survived = 1 \/ r.status = "exit3")
 
-RecOK(r) == CASE r.k = "unwind" -> UnwindOK(r) [] r.k = "run" -> RunOK(r) [] r.k = "bisect" -> BisectOK(r) [] r.k = "done" -> TRUE
+\* concurrent release of the last handles (ConcDrop.tla): under the into_inner discipline every node is
+\* released from the loop, at the same depth as in a single-threaded drop; under try_unwrap the
+\* dropper that releases last recurses once per node
+ConcOK(r) ==
+  Chk("releasing the last " \o ToString(r.holders) \o " handles of a " \o ToString(r.n)
+        \o "-node list at the same time reached a stack depth of " \o ToString(r.maxdepth)
+        \o " bytes (single-threaded drop: " \o ToString(r.seqdepth) \o "): the drop recursed along the list",
+      r.maxdepth <= r.seqdepth + Tolerance)
+
+RecOK(r) == CASE r.k = "cdrop" -> ConcOK(r) [] r.k = "unwind" -> UnwindOK(r) [] r.k = "run" -> RunOK(r) [] r.k = "bisect" -> BisectOK(r) [] r.k = "done" -> TRUE
 
 Init == l = 1 /\ TLCSet(1, 0)
 Next == l <= Len(Rec) /\ RecOK(Rec[l]) /\ l' = l + 1
